@@ -156,4 +156,9 @@ def run(facts, rep, tier, ctx):
     # cursor shape — a loop bound that stops one byte early never creates a final one-byte component yet answers Ok; C13 records)
     from . import c13 as _c13p
     _c13p.sites_for(facts, rep, ctx["V"], "R11.5p", lambda r: r.name == "create_dir_all")
+    # R11.16 copy_dir / move_dir compute every destination with join(): it drops or rewrites no component other than '', '.' and '..'
+    # (a name of three dots that vanishes sends an entry onto its parent's destination: "Destination exists" half way) — C06 R06.2/R06.3
+    from . import c06 as _c06j
+    from .c10 import _Prefixed as _Pf11j
+    _c06j.joiner_rules(facts, _Pf11j(rep, "R11.16"), D)
     rep.assume("copy_dir/move_dir into the source's own subtree is excluded by the property")
